@@ -32,6 +32,7 @@ CLOSED_FIRST = bool(int(os.environ.get('VERIF_APP_CLOSED_FIRST', '1')))
 # message callbacks whose cancellation clean-up awaits app.close() (fixes/C05-app-close-in-cancel-cleanup.md)
 GEN_CLOSE_ON_CANCEL = True
 FALSY = 0            # token of the falsy value `{}` an ASN.1 decode error yields
+INVENTED = 999999    # token of an object handed to the consumer that is not a decoded application message at all
 _DEFS = {}
 _ASN1_OK = None
 
@@ -108,6 +109,8 @@ def app_defs(kind):
             return bytes(VfSpec.Spec.encode('VfMsg', {'n': n}))
 
         def token(m):
+            if not isinstance(m, dict):
+                return INVENTED
             return m['n'] if m else FALSY      # `{}`: a decode error, or the valid pdu `30 00` (all-OPTIONAL SEQUENCE, nothing present)
         _DEFS[kind] = (_wrap_session(Base, asn1_message=VfAsnMsg), payload, token)
         return _DEFS[kind]
@@ -138,7 +141,7 @@ def app_defs(kind):
         return m.to_bytes()[1]
 
     def token(m):
-        return m.n
+        return m.n if isinstance(m, VfMsg) else INVENTED      # anything else was never sent as an application message
     cls = _wrap_session(Sess0)
     cls.VfMsg = VfMsg
     _DEFS[kind] = (cls, payload, token)
@@ -412,6 +415,11 @@ def run_app_scenario(kind, mode, cb_beh, msg_beh, script, hb=0.004, settle=0.05,
             except asyncio.CancelledError:
                 await do_close(app, who)
                 raise
+        elif isinstance(b, (tuple, list)) and b[0] in ('await_close', 'sleep_close'):
+            # works for a while, then closes the session from inside the callback (more messages may be queued behind it by then)
+            for _ in range(b[1] + 1):
+                await asyncio.sleep(0 if b[0] == 'await_close' else SLEEP_STEP)
+            await do_close(app, who)
         elif isinstance(b, (tuple, list)):
             for _ in range(b[1] + 1):
                 await asyncio.sleep(0 if b[0] == 'await' else SLEEP_STEP)
@@ -615,7 +623,7 @@ def run_sc(sc):
 # ------------------------------------------------------------------ model side
 def beh_sx(b):
     if isinstance(b, (tuple, list)):
-        return ['awaitcc' if b[0] in ('cc', 'ccsleep') else 'await', b[1]]
+        return [{'cc': 'awaitcc', 'ccsleep': 'awaitcc', 'await_close': 'awaitclose', 'sleep_close': 'awaitclose'}.get(b[0], 'await'), b[1]]
     return b
 
 
@@ -667,13 +675,80 @@ def compare(sc, out, ans):
 
 # ------------------------------------------------------------------ generator
 CB_BEHS = ['ret', ('await', 0), ('await', 2), 'close', 'ret', ('sleep', 1)]
-MSG_BEHS = [('await', 0), ('await', 1), ('await', 3), 'close', 'close', 'raise', ('sleep', 0), ('sleep', 2), ('sleep', 5)]
+MSG_BEHS = [('await', 0), ('await', 1), ('await', 3), 'close', 'close', 'raise', ('sleep', 0), ('sleep', 2), ('sleep', 5),
+            ('await_close', 1), ('sleep_close', 1), ('sleep_close', 3)]
 CC_BEHS = [('cc', 1), ('ccsleep', 1), ('ccsleep', 4), ('ccsleep', 8)]
+
+
+def gen_template(rng, kind):
+    """dense versions of the interleavings that matter most (the random mix reaches them too, but rarely)"""
+    t = rng.choice(['burst-close', 'burst-close', 'race', 'race', 'blocked-recv', 'cancel-closer', 'inflight', 'inflight', 'two-closers',
+                    'leftovers'])
+    turns = lambda a, b: ('turns', rng.randint(a, b))
+    tick = lambda: ('advance', rng.choice([0.0001, 0.0001, 0.0002, 0.0003]))
+    trigger = lambda u: rng.choice([('close', u), ('close', u), ('eos',), ('eof',), ('sclose', u), ('iclose',), ('logout',)])
+    sc = dict(kind=kind, mode='callback', cb_beh=rng.choice(CB_BEHS), has_cb=rng.random() < 0.9, msg_beh={}, script=[], first=[])
+    if t == 'burst-close':
+        # a burst in one segment; one of the first callbacks closes the session while the others are queued behind it
+        k = rng.randint(2, 5)
+        closer = rng.randint(1, 2)
+        sc['msg_beh'][closer] = rng.choice(['close', ('sleep_close', 1), ('sleep_close', 2), ('sleep_close', 4), ('sleep', 0), ('ccsleep', 1)])
+        if rng.random() < 0.4:
+            sc['msg_beh'][closer + 1] = rng.choice(MSG_BEHS)
+        sc['script'] = [('data', list(range(1, k + 1))), tick()]
+        b = sc['msg_beh'][closer]
+        if isinstance(b, tuple) and b[0] in ('sleep', 'ccsleep'):
+            sc['script'] += [trigger(2)]            # the callback does not close by itself: something else does
+        sc['script'] += [turns(0, 3)] + ([trigger(3)] if rng.random() < 0.4 else [])
+    elif t == 'race':
+        # two or three close triggers 0..3 loop turns apart, data in between
+        sc['mode'] = rng.choice(['pull', 'callback'])
+        trig = [trigger(2), trigger(3)] + ([trigger(4)] if rng.random() < 0.3 else [])
+        sc['script'] = ([('data', [1, 2]), tick()] if rng.random() < 0.5 else [])
+        for i, x in enumerate(trig):
+            sc['script'] += [x, turns(0, 3)]
+            if rng.random() < 0.3:
+                sc['script'] += [('data', [10 + i])]
+    elif t == 'blocked-recv':
+        # pull mode: receive_message() blocked when the session ends
+        sc['mode'] = 'pull'
+        sc['script'] = [('recv', 2), turns(0, 3)] + ([('data', [1]), tick(), ('recv', 3), turns(0, 2)] if rng.random() < 0.4 else [])
+        sc['script'] += [trigger(4), turns(0, 4)] + ([('cancel', 2)] if rng.random() < 0.3 else [])
+    elif t == 'cancel-closer':
+        # the caller of close() / soup close() is cancelled while it is blocked
+        sc['msg_beh'][1] = rng.choice([('sleep', 3), ('ccsleep', 3), 'ret'])
+        what = rng.choice(['close', 'sclose'])
+        sc['script'] = [('data', [1, 2]), tick(), (what, 2), turns(0, 6), ('cancel' if what == 'close' else 'scancel', 2), turns(0, 3),
+                        ('close', 3)]
+        sc['cb_beh'] = rng.choice([('await', 2), ('sleep', 1), 'ret', 'close'])
+    elif t == 'inflight':
+        # a (sleeping) message callback is in flight when the session ends
+        sc['msg_beh'][1] = rng.choice([('sleep', 4), ('sleep', 8), ('ccsleep', 4), ('ccsleep', 8)])
+        if rng.random() < 0.5:
+            sc['msg_beh'][2] = rng.choice(MSG_BEHS + CC_BEHS)
+        sc['script'] = [('data', [1, 2, 3]), tick(), trigger(2), turns(0, 3)] + ([trigger(3)] if rng.random() < 0.5 else [])
+    elif t == 'two-closers':
+        sc['mode'] = rng.choice(['pull', 'callback'])
+        sc['script'] = [('close', 2), turns(0, 4), ('close', 3), turns(0, 4), ('close', 4)] + ([('cancel', rng.choice([2, 3]))] if rng.random() < 0.4 else [])
+    else:
+        # callback mode closed from a handler with messages left behind, then pulled after the close
+        sc['msg_beh'][1] = 'close'
+        sc['script'] = [('data', [1, 2, 3]), tick(), ('advance', 0.02), ('recv', 2), turns(1, 2), ('recv', 3), turns(1, 2), ('recv', 4), turns(1, 2),
+                        ('recv', 5)]
+    if kind == 'asn1' and rng.random() < 0.5:
+        # falsy decoded values in the burst
+        for it in sc['script']:
+            if it[0] == 'data' and len(it[1]) > 1:
+                it[1][rng.randrange(len(it[1]))] = ('empty', 40 + rng.randint(0, 9))
+                break
+    return sc
 
 
 def gen_app_scenario(rng, kinds=None):
     kinds = kinds or (KINDS if asn1_available() else KINDS[:3])
     kind = rng.choice(kinds)
+    if rng.random() < 0.45:
+        return gen_template(rng, kind)
     mode = rng.choice(['pull', 'callback', 'callback'])
     cb_beh = rng.choice(CB_BEHS)
     has_cb = rng.random() < 0.9
@@ -728,6 +803,8 @@ def gen_app_scenario(rng, kinds=None):
         c = rng.random()
         if c < 0.4 and not dead[0]:
             script.append(('data', toks(rng.randint(1, 4))))
+            if rng.random() < 0.5:
+                script.append(('advance', rng.choice([0.0001, 0.0001, 0.0002, 0.0003])))     # let the reader poll
         elif c < 0.5 and mode == 'pull' and not pending_recv:
             u = new_user()
             script.append(('recv', u))
@@ -840,6 +917,24 @@ def app_oracle(sc, out, prop):
                     break
             kind = 'late-cancel-lost-message' if (ok and 0 < gaps <= late_cancels(sc, out)) else 'scenario'
             v.append((f'application session handed {seen} to the consumer, the peer sent {sent}', kind))
+        elif out.get('q2') is not None and not out['pending']:
+            # conservation: every decoded payload handed to the application session is delivered or still queued (a cancelled
+            # receive "consumes no message … the next receive returns the next undelivered message")
+            tab = dec_table(sc)
+            fed = []
+            for _, os_, _ in out['log']:
+                for o in os_:
+                    if isinstance(o, list) and o[0] == 'imsgEnter':
+                        d = tab.get(o[1], 'id')
+                        if d == 'id':
+                            fed.append(o[1])
+                        elif isinstance(d, list):
+                            fed.append(d[1])
+            if seen + list(out['q2']) != fed:
+                missing = len(fed) - len(seen) - len(out['q2'])
+                kind = 'late-cancel-lost-message' if 0 < missing <= late_cancels(sc, out) else 'scenario'
+                v.append((f'application session: decoded messages {fed} reached the second queue, the consumer saw {seen} and '
+                          f'{out["q2"]} remained queued', kind))
         for ev, _, _ in out['log']:
             if isinstance(ev, list) and ev[0] == 'acancel':
                 r = [o[2] for o in obs if isinstance(o, tuple) and o[0] == 'ret' and o[1] == ev[1]]
@@ -889,7 +984,8 @@ def app_oracle(sc, out, prop):
             if bad:
                 v.append((f'app.close() ended with {bad[0][2]}', 'scenario'))
             if any(i[1] != 'ok' for i in inner):
-                from_msg = any(b == 'close' for b in sc['msg_beh'].values())
+                from_msg = any(b == 'close' or (isinstance(b, (tuple, list)) and b[0] in ('await_close', 'sleep_close'))
+                               for b in sc['msg_beh'].values())
                 first_bad = [i[1] for i in inner if i[1] != 'ok'][0]
                 v.append((f'app.close() called from a callback ended with {first_bad}',
                           'app-close-from-message-callback' if from_msg and first_bad == 'cancelled' else 'scenario'))
@@ -945,10 +1041,87 @@ def corpus_scenarios(prop):
     return out
 
 
+# Lean witness histories (Witness/C04App.lean, Witness/C05App.lean; printed by the driver op `app.witness`) and the scenario that makes
+# the implementation walk through the same history: (scenario, model configuration of the witness, extra events, what is compared)
+def witness_cases():
+    base = ['dec', 'id', [0, 'skip']]
+    return {
+        'C04App-late-cancel': (
+            dict(kind='itch', mode='pull', cb_beh='ret', has_cb=False, msg_beh={}, first=[],
+                 script=[('recv', 2), ('turns', 3), ('data', [5]), ('advance', 0.0001), ('turns', 2), ('cancel', 2), ('turns', 3),
+                         ('recv', 3), ('turns', 3)]),
+            ['acfg', base, False, ['msgbeh', 'ret'], False, 'ret', True], [], 'C04'),
+        'C05App-close-from-handler': (
+            dict(kind='itch', mode='callback', cb_beh='ret', has_cb=True, msg_beh={3: 'close'}, first=[],
+                 script=[('data', [3, 4]), ('advance', 0.0005)]),
+            ['acfg', base, True, ['msgbeh', 'ret', [3, 'close']], True, 'ret', True], [], 'C05'),
+        'C05App-cleanup-close': (
+            dict(kind='itch', mode='callback', cb_beh='ret', has_cb=True, msg_beh={3: ('ccsleep', 20)}, first=[],
+                 script=[('data', [3]), ('advance', 0.0004), ('eof',)]),
+            ['acfg', base, True, ['msgbeh', ['awaitcc', 5]], True, 'ret', True], [['run', 'C']], 'C05'),
+    }
+
+
+APP_OBS = ('msgEnter', 'msgExit', 'msgAbandon', 'msgRaise', 'cbEnter', 'cbExit', 'aret', 'cret', 'hclose', 'cbclose')
+
+
+def app_level(obs_list):
+    out = []
+    for o in obs_list:
+        if (isinstance(o, str) and o in APP_OBS) or (isinstance(o, list) and o[0] in APP_OBS):
+            out.append(parse_sx(sx(o))[0] if not isinstance(o, str) else o)
+    return out
+
+
+def replay_witnesses(ctx, prop):
+    """the Lean witness histories are what the implementation does: same application-level observable sequence"""
+    if not (ctx.driver and ctx.driver.available and ctx.lean.build_ok):
+        return
+    for name, (sc, cfg, extra, wprop) in witness_cases().items():
+        if wprop != prop:
+            continue
+        hist = ctx.driver.ask(['app.witness ' + name])[0]
+        if hist == 'bad-request':
+            ctx.disagree(f'application session: the driver does not know the witness {name}', {'kind': 'witness', 'name': name})
+            continue
+        ans = ctx.driver.ask(['app.run ' + sx(cfg) + ' ' + hist + ''.join(' ' + sx(e) for e in extra)])[0]
+        parts = parse_sx(ans)
+        model_obs = []
+        for m in parts[:-1]:
+            if m == 'disabled':
+                continue        # the driver runs a task that continues within the same real step at once; the explicit step is then a no-op
+            md = {k[0]: k[1:] for k in m}
+            model_obs += [o for o in md['o'] if (o if isinstance(o, str) else o[0]) in APP_OBS]
+        try:
+            out = run_sc(sc)
+        except Exception as e:   # noqa
+            ctx.violation(f'running the witness scenario {name} raised {type(e).__name__}: {e}', {'kind': 'scenario', 'app_scenario': sc_to_json(sc)})
+            continue
+        impl_obs = app_level([o for _, os_, _ in out['log'] for o in os_])
+        if name == 'C04App-late-cancel':
+            impl_obs = impl_obs[:len(model_obs)]       # the witness stops while the second receive is still waiting
+        ctx.case({'witness': name}, nontrivial=True)
+        ctx.count('app-witness:' + name)
+        if impl_obs != model_obs:
+            ctx.disagree(f'application session: witness {name}: the Lean history yields {sx(model_obs)}, the implementation '
+                         f'{sx(impl_obs) if impl_obs else "()"}', {'kind': 'witness', 'name': name, 'app_scenario': sc_to_json(sc)})
+        # the scenario itself goes through the usual correspondence and oracle
+        req = model_request(sc, out['log'])
+        dis = compare(sc, out, ctx.driver.ask([req])[0])
+        if dis:
+            ctx.disagree('application session: ' + dis[0], {'kind': 'scenario', 'app_scenario': sc_to_json(sc)})
+        for what, kind in app_oracle(sc, out, prop):
+            ctx.violation(what, {'kind': kind, 'app_scenario': sc_to_json(sc)})
+
+
 def run_family_app(ctx, prop):
     """application scenarios: implementation run, replay through the Lean product machine, property oracle"""
     rng = ctx.rng
     n_app = 300 if ctx.tier == 'quick' else 6000
+    try:
+        replay_witnesses(ctx, prop)
+    except Exception as e:   # noqa
+        ctx.disagree(f'application session: could not replay the Lean witnesses: {type(e).__name__}: {e}', {'kind': 'witness'})
     cases = corpus_scenarios(prop)
     for _ in range(n_app):
         r = random.Random(rng.random())
